@@ -10,6 +10,8 @@ import (
 	"sort"
 	"strconv"
 	"strings"
+
+	"golang.org/x/tools/go/ssa"
 )
 
 func (ex *Exec) newVar(kind string, w int) *Term {
@@ -288,6 +290,12 @@ func init() {
 		ts := fr.ex.sched()
 		fs := &frozenSet{cells: map[*value]bool{}, maps: map[*omap]bool{}, seen: map[interface{}]bool{}, hits: map[string]bool{}}
 		fs.walk(a[0], 0)
+		// package-level variables are shared by all goroutines as well
+		for _, m := range fr.ex.eng.Pkg.Members {
+			if g, ok := m.(*ssa.Global); ok {
+				fs.walk(fr.ex.global(g), 0)
+			}
+		}
 		ts.shared = fs
 		return nil
 	})
